@@ -12,7 +12,7 @@ RULE = ("subcommands x flag combinations {run, run --check, run --again -j, wher
         "{root, package dir, nested package, directory without COND, cond-out, inside a task output, sibling package} x project states (fresh, with failed leftovers, several versions); "
         "non-trivial = command touches cond-out or prints a location; distinct = (state, command, cwd)")
 
-CWDS = ["", "a", "a/b", "docs/deep", "cond-out", "cond-out/a/c1.task", "c-d", "cond", "vendor/lib"]
+CWDS = ["", "a", "a/b", "docs/deep", "cond-out", "cond-out/a/c1.task", "c-d", "cond", "cond-out/a/ghost.task.77", "@outside-link-to-a", "vendor/lib"]
 GIT_COMMANDS = [["run", "//:g", "--this-commit"], ["run", "//a/b:e3", "--at-least", "HEAD"], ["run", "//:dd", "--at-least", "HEAD~1"], ["where", "//a:e2"], ["run", "//:g"]]
 T0 = 1_800_000_000
 
@@ -81,7 +81,7 @@ def eval_case(case):
         # c1's output must exist so that "inside a task output" is a valid cwd
         pr.cond(["run", "//a:c1"], timeout=60)
         os.makedirs(os.path.join(pr.root, "cond-out", "a", "c1.task"), exist_ok=True)
-        if case["leftovers"]:
+        if case["leftovers"] or "cond-out/a/ghost.task.77" in case["cwds"]:
             os.makedirs(os.path.join(pr.root, "cond-out", "a", "ghost.task.77", "x"), exist_ok=True)
             os.makedirs(os.path.join(pr.root, "cond-out", "zz", "e1.task.5"), exist_ok=True)
         kept = os.path.join(sc.root, "kept.tar.gz")
@@ -108,11 +108,16 @@ def eval_case(case):
             arch = os.path.join(archdir, "explicit.tar.gz")
             argv = [{"@ARCH": arch, "@ARCHDIR": archdir, "@KEPT": kept}.get(x, x) for x in cmd]
             cwd_abs = os.path.join(pr.root, cwd)
+            if cwd == "@outside-link-to-a":
+                # a project sub-directory entered through a symbolic link that lives outside the project
+                cwd_abs = os.path.join(sc.root, "shortcut-to-a")
+                if not os.path.islink(cwd_abs):
+                    os.symlink(os.path.join(pr.root, "a"), cwd_abs)
             if not os.path.isdir(cwd_abs):
                 out["inconclusive"].append({"why": "cwd missing in this state", "detail": cwd})
                 continue
             pr.events(new_only=True)
-            r = pr.cond(argv, cwd=cwd, timeout=120, clock=[T0])
+            r = cli.run_cli(argv, cwd_abs, pr.scratch, timeout=120, clock=[T0])
             evs = pr.events(new_only=True)
             snap = statecheck.full_snapshot(pr.root) if os.path.isdir(pr.root) else {}
             snap = {k: v for k, v in snap.items() if "version_index.sqlite" not in k and not (k.startswith("cond-out/cond-archive+")) and not (k == ".git" or k.startswith(".git/") or "/.git/" in k or k.endswith("/.git"))}
